@@ -3,6 +3,7 @@
 package main
 
 import (
+	"fmt"
 	"bytes"
 	"context"
 	"crypto/sha256"
@@ -104,7 +105,15 @@ func (s *storage) take() sexp.Node { c := s.calls; s.calls = nil; return sexp.L(
 
 func obs(action sexp.Node, calls sexp.Node) sexp.Node { return sexp.T("obs", action, calls) }
 
-func runDirect(hist []req) []sexp.Node {
+// extKey identifies the content of a request's extension map (requests with one key may share one map object)
+func (r req) extKey() string { b, _ := json.Marshal(r.extensions()); return fmt.Sprintf("%d|%s", r.ExtKind, b) }
+
+// runDirect drives PersistedQueryExtension directly.  With shared = true (round 2, after seeded change
+// C18-9) requests of one history whose extensions have the same content hand the SAME map object to the
+// function, as an application re-sending a prepared request would; the function must not change its
+// caller's map (checked after every call against a copy: action "unexpected" if it did).
+func runDirect(hist []req, shared bool) []sexp.Node {
+	maps := map[string]map[string]interface{}{}
 	st := &storage{m: map[string]string{}}
 	var executed *string
 	f := apifu.PersistedQueryExtension(st, func(r *graphql.Request) *graphql.Response {
@@ -115,9 +124,21 @@ func runDirect(hist []req) []sexp.Node {
 	var out []sexp.Node
 	for _, r := range hist {
 		executed = nil
-		resp := f(&graphql.Request{Context: context.Background(), Query: r.Query, Extensions: r.extensions()})
+		ext := r.extensions()
+		if shared && ext != nil {
+			if m, ok := maps[r.extKey()]; ok {
+				ext = m
+			} else {
+				maps[r.extKey()] = ext
+			}
+		}
+		before, _ := json.Marshal(ext)
+		resp := f(&graphql.Request{Context: context.Background(), Query: r.Query, Extensions: ext})
+		after, _ := json.Marshal(ext)
 		var a sexp.Node
 		switch {
+		case !bytes.Equal(before, after):
+			a = sexp.T("unexpected") // the caller's extension map was modified
 		case executed != nil:
 			a = sexp.T("exec", sexp.Str(*executed))
 		case len(resp.Errors) == 1 && resp.Errors[0].Message == "PersistedQueryNotFound":
@@ -146,7 +167,10 @@ func newAPI(st *storage, executed **string) *apifu.API {
 	return api
 }
 
-func runHTTP(hist []req, get bool) []sexp.Node {
+// runHTTP: GET (everything in the URL), POST application/json (everything in the body), or - urlText,
+// round 2 after seeded change C18-8 - POST application/json with the query TEXT in the URL (?query=) and
+// only the extensions in the body.
+func runHTTP(hist []req, get bool, urlText bool) []sexp.Node {
 	st := &storage{m: map[string]string{}}
 	var executed *string
 	api := newAPI(st, &executed)
@@ -166,14 +190,19 @@ func runHTTP(hist []req, get bool) []sexp.Node {
 			hr = httptest.NewRequest("GET", "/graphql?"+v.Encode(), nil)
 		} else {
 			body := map[string]interface{}{}
+			target := "/graphql"
 			if r.Query != "" {
-				body["query"] = r.Query
+				if urlText {
+					target += "?" + url.Values{"query": {r.Query}}.Encode()
+				} else {
+					body["query"] = r.Query
+				}
 			}
 			if e := r.extensions(); e != nil {
 				body["extensions"] = e
 			}
 			b, _ := json.Marshal(body)
-			hr = httptest.NewRequest("POST", "/graphql", bytes.NewReader(b))
+			hr = httptest.NewRequest("POST", target, bytes.NewReader(b))
 			hr.Header.Set("Content-Type", "application/json")
 		}
 		w := httptest.NewRecorder()
@@ -210,11 +239,15 @@ func caseOf(route string, hist []req) sexp.Node {
 	var o []sexp.Node
 	switch route {
 	case "direct":
-		o = runDirect(hist)
+		o = runDirect(hist, false)
+	case "direct-shared":
+		o = runDirect(hist, true)
 	case "post":
-		o = runHTTP(hist, false)
+		o = runHTTP(hist, false, false)
+	case "post-url":
+		o = runHTTP(hist, false, true)
 	case "get":
-		o = runHTTP(hist, true)
+		o = runHTTP(hist, true, false)
 	}
 	return sexp.T("case", sexp.T("route", sexp.Sym(route)), sexp.T("shas", sexp.L(shas...)),
 		sexp.T("history", sexp.L(hs...)), sexp.T("observed", sexp.L(o...)))
@@ -258,7 +291,7 @@ func randomReq(r *rng.R) req {
 
 func main() {
 	hx.Main(func(h *hx.H) {
-		routes := []string{"direct", "post", "get"}
+		routes := []string{"direct", "post", "get", "direct-shared", "post-url"}
 		alpha := alphabet()
 		maxLen := 2
 		if h.Thorough() {
@@ -270,7 +303,7 @@ func main() {
 			if len(prefix) > 0 {
 				hist := append([]req(nil), prefix...)
 				for _, route := range routes {
-					if route != "direct" && len(hist) > 2 {
+					if route != "direct" && route != "direct-shared" && len(hist) > 2 {
 						continue
 					}
 					route := route
@@ -291,7 +324,7 @@ func main() {
 			n = 30000
 		}
 		for i := 0; i < n; i++ {
-			route := routes[i%3]
+			route := routes[i%len(routes)]
 			h.Case(func(r *rng.R) sexp.Node {
 				l := r.Range(2, 9)
 				hist := make([]req, l)
